@@ -181,11 +181,16 @@ def api_call(f, order, given, first=(), positional=None, defaults=None):
     _ROT[key] = _ROT.get(key, 0) + 1
     pos = (_ROT[key] % 2 == 0) if positional is None else positional
     args, kw = list(first), dict(given)
-    if defaults and _ROT[key] % 3 == 0:
-        # a parameter whose requested value IS the default of the published signature is left out every third time
-        for name, dv in defaults.items():
-            if name in kw and type(kw[name]) is type(dv) and kw[name] == dv:
-                del kw[name]
+    if defaults:
+        # a parameter whose requested value IS the default of the published signature is left out on every other call
+        # that has such a parameter (a counter of its own: the calls that qualify may come with any period)
+        same = [name for name, dv in defaults.items() if name in kw and type(kw[name]) is type(dv) and kw[name] == dv]
+        if same:
+            dkey = ("defaults",) + key
+            _ROT[dkey] = _ROT.get(dkey, 0) + 1
+            if _ROT[dkey] % 2 == 1:
+                for name in same:
+                    del kw[name]
     if pos:
         for name in order:
             if name not in kw:
